@@ -132,6 +132,8 @@ class Filenames(object):
     def __next__(self):
         for name in self.newFilename:
             return name
+        # The generator gave up on an earlier request
+        raise ValueError('Filename could not be created.')
 
     def addExtension(self, filename):
         """ Add a file extension to the filename if none exists """
